@@ -178,11 +178,19 @@ Print Assumptions C20_bias_energy_returns_last_observation.
    error, the feature is on afterwards and the gradients stay unavailable until a step *)
 Theorem C20_getgradients_needs_a_step : forall (T : Type) (st : @sem T) e words x c,
   e_name e = "colvar_getgradients" -> nth 2 words "" = x -> alookup x (sm_cv st) = Some c ->
-  (cs_collect c = false \/ cs_valid c = false) ->
+  (cs_collect c = false \/ cs_valid c = Some false) ->
   snd (body_sem st e words) = QErr /\
-  forall c', alookup x (sm_cv (fst (body_sem st e words))) = Some c' -> cs_collect c' = true /\ cs_valid c' = cs_collect c && cs_valid c.
+  forall c', alookup x (sm_cv (fst (body_sem st e words))) = Some c' -> cs_collect c' = true /\ cs_valid c' = Some false.
 Proof. exact (@getgradients_needs_a_step). Qed.
 Print Assumptions C20_getgradients_needs_a_step.
+
+(* ... and after a step that ran through, with the feature on and the variable active, the answer is the gradients observed *)
+Theorem C20_getgradients_after_step : forall (T : Type) (st : @sem T) ob e words x c d,
+  e_name e = "colvar_getgradients" -> nth 2 words "" = x -> alookup x (sm_cv st) = Some c -> alookup x (ob_cv ob) = Some d ->
+  cs_collect c = true -> ob_ok ob = true -> cd_active d = true ->
+  body_sem (sem_step st ob) e words = (sem_step st ob, QVecs (cd_grads d)).
+Proof. exact (@getgradients_after_step). Qed.
+Print Assumptions C20_getgradients_after_step.
 
 (* over ANY history of calls, steps with arbitrary observations and engine-side configurations the data stay attached to
    exactly the objects that exist (nothing can be read about a deleted object, a new object starts unknown) *)
@@ -238,9 +246,9 @@ Proof.
 Qed.
 
 Definition ex_sem : @sem Z :=
-  mk_sem ex_st [("x", mk_cvsem None false false)] [("h", None)] None.
+  mk_sem ex_st [("x", mk_cvsem None false (Some false))] [("h", None)] None.
 Definition ex_ob : @obs Z :=
-  mk_obs (mk_moddata 7 42%Z [0%Z] [1%Z] [0%Z] [(1, 2, 3)%Z] [(4, 5, 6)%Z] [(0, 0, 0)%Z])
+  mk_obs true (mk_moddata 7 42%Z [0%Z] [1%Z] [0%Z] [(1, 2, 3)%Z] [(4, 5, 6)%Z] [(0, 0, 0)%Z])
          [("x", mk_cvdata 11%Z 12%Z 13%Z true [0%Z] [(1, 0, 0)%Z])] [("h", 5%Z)].
 (* a step, malformed calls and queries, then the queries; getgradients: error, still error after set, answer after a step *)
 Example C20_example_semantics :
